@@ -324,7 +324,11 @@ class Ctx:
             'wall_s': round(time.time() - self.t0, 2),
             'violations': unknown,
         }
-        json.dump(ev, open(os.path.join(VERIF, 'evidence', f'{self.id}.json'), 'w'), indent=1, default=str)
+        # evidence/ is only (re)written by runs against /repo itself; drills against a scratch copy
+        # (VERIF_REPO) leave it alone
+        evdir = os.path.join(VERIF, 'evidence') if os.path.realpath(REPO) == '/repo' else os.path.join(VERIF, 'build', 'evidence_scratch')
+        os.makedirs(evdir, exist_ok=True)
+        json.dump(ev, open(os.path.join(evdir, f'{self.id}.json'), 'w'), indent=1, default=str)
         print(f'[{self.id}] obligations {n_dis}/{n_obl} discharged; '
               f'evaluations={cov.get("evaluations")}; violations={unknown}; '
               f'known={len(printed_known)}; wall={ev["wall_s"]}s')
